@@ -192,11 +192,98 @@ def rule_prune(prog, rep):
         rep.finding("C32.PRUNE", f.name, "retain", "unused fragments are not pruned by reachability from operations", f.loc())
 
 
+def rule_closure(prog, rep):
+    """C32.CLOSURE: prune_unused_fragments keeps the fragments *reachable* from the operations; a
+    fragment spread by a kept fragment must be kept too, whatever the order of definitions.  So
+    reachable_fragment_names has to be a fixpoint: the loop that follows a fragment's nested spreads
+    is driven by a worklist that grows inside that same loop (pop .. push on the same collection),
+    or repeats while something changed.  A single pass over the fixed list of definitions follows a
+    chain only as far as the definition order happens to allow."""
+    rep.floor("C32.CLOSURE", 1)
+    f = prog.fn(r"^apollo_smith::fragment::reachable_fragment_names$")
+    succs = f.succs()
+
+    def reach(b):
+        return f.reachable_blocks([x for x in succs[b]])
+
+    nested = [c for c in f.live_calls() if c.name.endswith("collect_fragment_spreads") and "arg1" not in f.sym(c.args[0])]
+    if not nested:
+        raise Undecided("reachable_fragment_names: no call that collects the spreads nested in a fragment definition")
+    for c in nested:
+        cyc = set(b for b in reach(c.block) if c.block in reach(b)) | {c.block}
+        if c.block not in reach(c.block):
+            rep.finding("C32.CLOSURE", f.name, "no-loop", "the spreads nested in a reachable fragment are collected outside any loop: only one level of nesting is followed", c.loc())
+            continue
+        calls = [x for x in f.live_calls() if x.block in cyc]
+        pops = [x for x in calls if re.search(r"(Vec|VecDeque)::<T(, A)?>::(pop|pop_front|pop_back)$|IndexSet::<T, S>::pop$", x.name)]
+        pushes = [x for x in calls if re.search(r"(Vec|VecDeque)::<T(, A)?>::(push|push_back|push_front|extend|append)$|Extend<.*>>::extend$", x.name)]
+        worklist = any(f.sym(p.args[0]).lstrip("&") == f.sym(q.args[0]).lstrip("&") for p in pops for q in pushes)
+        # `loop { changed = false; for .. { if insert(..) { changed = true } } if !changed { break } }`
+        flags = set()
+        for b in cyc:
+            for st in f.stmts(b):
+                if st[0] == "=" and not st[1][1] and f.local_ty(st[1][0]) == "bool" and st[2][0] == "use" and f.local_name(st[1][0]):
+                    flags.add(st[1][0])
+        repeat = False
+        for b in cyc:
+            t = f.term(b)
+            if t[0] == "switch":
+                roots = derives(f, t[1])[0]
+                if any(("var:%s" % f.local_name(l)) in roots for l in flags):
+                    repeat = True
+        ok = worklist or repeat
+        rep.obligation(ok)
+        if ok:
+            rep.instance("C32.CLOSURE", "reachable_fragment_names: nested spreads are followed to a fixpoint (%s)" % ("worklist: popped and pushed inside the same loop" if worklist else "repeat while changed"))
+        else:
+            drivers = sorted(set(x.name.split("::")[-1] + "(" + f.sym(x.args[0])[:40] + ")" for x in calls if re.search(r"Iterator>?::next$|::pop", x.name)))
+            rep.finding("C32.CLOSURE", f.name, "single-pass",
+                        "the loop that follows nested fragment spreads is driven by %s, which does not grow inside the loop, and nothing repeats it: reachability depends on the order of the fragment definitions, so a fragment spread by a kept fragment can be pruned and the document no longer validates" % (drivers or "a fixed sequence"), c.loc())
+
+
+def rule_impldup(prog, rep):
+    """C32.IMPLDUP: a type's `implements` entries are spread over its definition and its extensions,
+    and validation rejects an interface listed twice.  `additional_implements(existing, self_name)`
+    excludes what the type already implements only when it is told which type it is extending: every
+    call that passes the existing field signatures of a type X (computed with
+    field_signatures_for(.., &X), i.e. X may already have definitions) must also pass Some(&X).
+    Sibling rule: interface_type_definition and object_type_definition are the two generators that
+    can emit extensions."""
+    rep.floor("C32.IMPLDUP", 2)
+    n = 0
+    for f in sorted(prog.fns.values(), key=lambda g: g.name):
+        if f.crate != "apollo_smith":
+            continue
+        for c in f.live_calls():
+            if not c.name.endswith("DocumentBuilder::<'_>::additional_implements") and not c.name.endswith("::additional_implements"):
+                continue
+            if len(c.args) != 3:
+                continue
+            sig, who = f.sym(c.args[1]), f.sym(c.args[2])
+            m = re.search(r"field_signatures_for\(.*, &?(var:\w+|arg\d+[\w.]*)\)$", sig)
+            if not m:
+                rep.instance("C32.IMPLDUP", "%s: implements list for a fresh name (no existing signatures)" % f.name.split("::")[-1])
+                continue
+            n += 1
+            x = m.group(1)
+            ok = re.fullmatch(r"Option::Some\{&?%s\}" % re.escape(x), who) is not None
+            rep.obligation(ok)
+            if ok:
+                rep.instance("C32.IMPLDUP", "%s: additional_implements is told it extends `%s`, so interfaces that type already implements are excluded" % (f.name.split("::")[-1], x))
+            else:
+                rep.finding("C32.IMPLDUP", f.name, "self-name",
+                            "%s picks additional interfaces for `%s`, which may already have a definition, but passes `%s` as the type being extended: an interface the type already implements can be picked again, and validation rejects `implements I` listed twice" % (f.name.split("::")[-1], x, who), c.loc())
+    if n < 2:
+        raise AnchorError("expected the additional_implements calls of interface_type_definition and object_type_definition")
+
+
 def run(prog, rep):
     rule_det(prog, rep)
     rule_backfill(prog, rep)
     rule_unique(prog, rep)
     rule_charset(prog, rep)
     rule_prune(prog, rep)
+    rule_closure(prog, rep)
+    rule_impldup(prog, rep)
     rep.assume("arbitrary::Unstructured is a deterministic function of its bytes; petgraph::algo::toposort returns a topological order of the graph it is given")
-    rep.note("that every generated document parses and validates is not decided; one genuine gap reported by an independent run (object extensions can repeat an implements entry) is outside these rules")
+    rep.note("that every generated document parses and validates is not decided as a whole; the clauses above are necessary conditions of it")
